@@ -201,6 +201,21 @@ class Contract:
                     self.trusted_reason = c.args[0].value if c.args else ""
                 elif f == "use_lemma":
                     self.uses.extend(x.value for x in c.args)
+                elif f == "modifies_fields":
+                    # modifies_fields(self=("_xpath",)): the callee may change exactly these fields of the record
+                    # parameter; the post-state is final_<param> in ensures clauses (frame proved at every exit)
+                    if not hasattr(self, "modifies_fields"):
+                        self.modifies_fields = {}
+                    for k, v in kw.items():
+                        self.modifies_fields[k] = [x.value for x in v.elts]
+                elif f == "native_only":
+                    # the clauses are executable Python for the bounded native search only: the prover assumes
+                    # nothing about the result at call sites (sound: a weaker assumption)
+                    self.native_only = True
+                elif f == "functional":
+                    # the result is named as an uninterpreted function of the arguments at every call site
+                    # (assumption: the callee is deterministic in the argument values it is given)
+                    self.functional = c.args[0].value
                 elif f == "exhaustive_only":
                     self.exhaustive_only = True   # native search: only the EXHAUSTIVE generator, no random phase
                 elif f == "abstract_regex":
@@ -328,9 +343,10 @@ class Contract:
         line = getattr(node, "lineno", 0)
         where = f"L{line - eng.line0}:{self.qualname}"
         genv = dict(env)
-        for gname, gexpr in self.ghosts:
+        native_only = getattr(self, "native_only", False)
+        for gname, gexpr in ([] if native_only else self.ghosts):
             genv[gname] = eng.eval_contract_value(gexpr, st, genv)
-        for k, r in enumerate(self.requires):
+        for k, r in enumerate([] if native_only else self.requires):
             goal = eng.eval_contract_expr(r, st, genv, where="pre", only_env=True)
             eng.oblige("pre@call", f"{where}.{k}", st, goal, line)
         if self.trusted:
@@ -339,7 +355,10 @@ class Contract:
         # exceptional exits
         normal = st
         for cls, when, exact in self.raises:
-            w = eng.eval_contract_expr(when, st, genv, where="raises", only_env=True)
+            if native_only:
+                w, exact = z3.BoolVal(True), False   # may raise the declared classes under unknown conditions
+            else:
+                w = eng.eval_contract_expr(when, st, genv, where="raises", only_env=True)
             s_exc = st.assume(w)
             if not z3.is_false(simp(w)) and eng.feasible(s_exc):
                 outs.append((s_exc, RaiseV(cls, None, f"call {self.qualname}")))
@@ -347,14 +366,32 @@ class Contract:
                 normal = normal.assume(simp(z3.Not(w)))
         if self.ret is None or self.ret == K_NONE:
             res = NONE
+        elif getattr(self, "functional", None):
+            rk = instantiate(self.ret, subst)
+            fargs = [(n, instantiate(k, subst)) for n, k, _ in self.params if not isinstance(k, KFn)]
+            fn_ = z3.Function(self.functional, *[k.sort() for _, k in fargs], rk.sort())
+            res = unbox(fn_(*[box(env[n], k) for n, k in fargs]), rk)
+            eng.trusted_used.add(f"{self.fid}: result named {self.functional}(args) at call sites (deterministic in its arguments)")
         else:
             res = fresh(instantiate(self.ret, subst), f"ret_{self.qualname.replace('.', '_')}")
         env2 = {**genv, "result": res}
-        for e in self.ensures:
+        finals = {}
+        for pname, fields in getattr(self, "modifies_fields", {}).items():
+            old = env[pname]
+            if not isinstance(old, ObjV):
+                raise Unsupported(f"{self.fid}: modifies_fields on non-record {pname}")
+            newv = old
+            for fld in fields:
+                newv = newv.with_field(fld, fresh(old.fields[fld].kind, f"{pname}_{fld}_after_{self.qualname.replace('.', '_')}"))
+            finals[pname] = newv
+            env2["final_" + pname] = newv
+        for e in ([] if getattr(self, "native_only", False) else self.ensures):
             normal = normal.assume(eng.eval_contract_expr(e, normal, env2, where="ensures", only_env=True))
         # frame: parameters the callee mutates are rebound in the caller to their declared new value
-        for pname, expr in self.mutates.items():
-            newv = eng.eval_contract_value(expr, normal, env2)
+        todo = [(pname, None, newv) for pname, newv in finals.items()] + [(pname, expr, None) for pname, expr in self.mutates.items()]
+        for pname, expr, newv in todo:
+            if newv is None:
+                newv = eng.eval_contract_value(expr, normal, env2)
             idx = [p[0] for p in self.params].index(pname)
             argexpr = None
             if node is not None:
@@ -371,6 +408,13 @@ class Contract:
             path = eng._lvalue_path(argexpr) if argexpr is not None else None
             if path is None:
                 raise Unsupported(f"{self.fid}: mutated argument {pname} is not a plain variable at the call site")
+            cur = eng._read_path(normal, path)
+            if isinstance(cur, ObjV) and isinstance(newv, ObjV) and set(newv.fields) < set(cur.fields):
+                # the callee's record view has fewer fields than the caller's object: only those are written back
+                merged = cur
+                for fn_, fv in newv.fields.items():
+                    merged = merged.with_field(fn_, fv)
+                newv = merged
             normal = eng._write_path(normal, path, newv)
         if eng.feasible(normal):
             outs.append((normal, res))
@@ -961,7 +1005,12 @@ class Verifier(Engine):
         for u in c.uses:
             st = st.assume(self.lemma_axiom(u))
         if _own_yields(fn):
-            st.ghost["yield"] = []
+            if isinstance(c.ret, KList):
+                # the yielded sequence is an ordinary (symbolic) variable `_yield`: loops may grow it and
+                # invariants may mention it
+                st = st.bind("_yield", ListV(c.ret.elem, z3.Empty(c.ret.sort())))
+            else:
+                st.ghost["yield"] = []
         first = len(self.obligations)
         outs = self.exec_block(fn.body, st)
         self.stats["paths"] += len(outs)
@@ -970,7 +1019,9 @@ class Verifier(Engine):
             if oc.kind in ("normal", "return"):
                 n_normal += 1
                 val = oc.value if oc.kind == "return" else NONE
-                if "yield" in oc.state.ghost:
+                if "_yield" in oc.state.vars:
+                    val = oc.state.vars["_yield"]
+                elif "yield" in oc.state.ghost:
                     from .dom_model import gen_value
 
                     val = gen_value(oc.state.ghost["yield"])
@@ -1008,6 +1059,12 @@ class Verifier(Engine):
             if exact:
                 w = self.eval_contract_expr(when, st, {**env, **genv}, only_env=True)
                 self.oblige("raises", f"must-raise-{cls}", st, simp(z3.Not(w)), ex.lineno)
+        for pname, fields in getattr(c, "modifies_fields", {}).items():
+            got, was = cur.get(pname), env[pname]
+            if isinstance(got, ObjV) and isinstance(was, ObjV):
+                for fn_ in was.fields:
+                    if fn_ not in fields:
+                        self.oblige("frame", f"unchanged-{pname}.{fn_}", st, simp(self.eq(got.fields[fn_], was.fields[fn_])), ex.lineno)
         for pname, expr in c.mutates.items():
             vars_ = {**cur, **{n: v for n, v in env.items()}, **genv, "result": res}
             want = self.eval_contract_value(expr, st, vars_)
